@@ -142,6 +142,22 @@ func rejectingEdge(fn *ssa.Function, from, to *ssa.BasicBlock) bool {
 }
 
 func checkC02(p *Program, r *Report) {
+	// round 6 (systematic): the Base58 / Base58Check layer this property's strings go through is C07's — its table,
+	// checksum, exactness and purity clauses are necessary here too (§2.11)
+	r.Borrow("C07", func(o *Ob) (string, bool) {
+		switch o.Rule {
+		case "C07.tables", "C07.checksum", "C07.exact", "C07.pure":
+			if strings.Contains(o.Func, "bech32") || strings.Contains(o.Construct, "bech32") {
+				return "", false
+			}
+			return "C02.base58", true
+		}
+		return "", false
+	})
+	r.Floor("C02.base58", 5)
+	// round 6 (systematic): no unguarded mutable package-level state behind this property's functions (§2.9)
+	sharedStateRule(p, r, NewEffects(p), "C02.shared", []string{"address.go", "base58/base58.go", "base58/base58check.go"})
+	r.Floor("C02.shared", 0)
 	r.Explain = "C02.exhaustive: every classification (tagged switch / if–else-if chain comparing one input-derived value with constants) in the decoding " +
 		"functions rejects what it does not recognise: the 'no case matched' edge cannot reach an accepting return. C02.guards: payload-length, " +
 		"regrouping-direction, prefix-present and single-case tests lie on every accepting path with the specified constants. C02.padding: the 5→8 bit " +
